@@ -132,6 +132,58 @@ def check_inplace(ctx, root, X, rep):
     return Y
 
 
+def double_precision_evidence_kept(ctx, root, X, scope, order, rep, fn=None, name='mpe'):
+    """the caller's evidence may be double precision: observed entries that are not single-precision numbers must come back bit for
+    bit, in the returned array and (in place) in the caller's own array"""
+    cont_cols = sorted({n.scope[0] for n in order if S.is_continuous(n)})
+    if not cont_cols:
+        return True
+    fn = fn or mpe
+    X64 = X.astype(np.float64)
+    for v in cont_cols:
+        X64[:, v] = X64[:, v] * (1.0 + 3e-10) + 1e-10          # not representable in float32 any more
+    obs = ~np.isnan(X64)
+    for inplace in (False, True):
+        Z = X64.copy()
+        try:
+            np.random.seed(0)
+            W = fn(root, Z, inplace=inplace)
+        except Exception as ex:
+            ctx.violation(f'c06-{name}-raises-float64', f'{name} raised {type(ex).__name__}: {ex} on double-precision evidence', replay=dict(rep, dtype='float64'))
+            return False
+        ctx.count(f'float64-evidence-{name}-calls')
+        W = np.asarray(W)
+        bad = obs & ~(W == X64)
+        if bad.any():
+            r, c = np.argwhere(bad)[0]
+            ctx.violation(f'c06-observed-entry-changed:{name}-float64', f'{name}(inplace={inplace}) on double-precision evidence returned {W[r, c]!r} for the observed entry '
+                                                                        f'{X64[r, c]!r} (row {int(r)}, variable {int(c)})',
+                          replay=dict(rep, dtype='float64', rows=np.where(np.isnan(X64), None, X64).tolist()))
+            return False
+        if inplace and (obs & ~(Z == X64)).any():
+            ctx.violation(f'c06-observed-entry-changed:{name}-float64-inplace', f'{name}(inplace=True) overwrote an observed double-precision entry of the caller array',
+                          replay=dict(rep, dtype='float64', rows=np.where(np.isnan(X64), None, X64).tolist()))
+            return False
+    return True
+
+
+def replay_float64(r, fn):
+    root, order = build_from_table(r['table'])
+    X64 = np.array([[np.nan if t is None else t for t in row] for row in r['rows']], dtype=np.float64)
+    obs = ~np.isnan(X64)
+    ok = True
+    for inplace in (False, True):
+        Z = X64.copy()
+        np.random.seed(0)
+        W = np.asarray(fn(root, Z, inplace=inplace))
+        bad = obs & ~(W == X64)
+        if bad.any() or (inplace and (obs & ~(Z == X64)).any()):
+            rr, c = np.argwhere(bad)[0] if bad.any() else (0, 0)
+            print(f'inplace={inplace}: observed entry {X64[rr, c]!r} came back as {W[rr, c]!r}')
+            ok = False
+    return ok
+
+
 def circuit_case(ctx, k, cat_only):
     rs = np.random.RandomState(np_seed(ctx.sub_rng('net', k, cat_only)))
     ncols = int(rs.randint(2, 7))
@@ -175,6 +227,8 @@ def circuit_case(ctx, k, cat_only):
     msg = basic_contract(X, Y, scope, order)
     if msg:
         ctx.violation('c06-contract', 'mpe: ' + msg, replay=rep)
+        return
+    if not double_precision_evidence_kept(ctx, root, X, scope, order, rep):
         return
     ll_e = np.asarray(log_likelihood(root, X)).reshape(-1)
     ll_y = np.asarray(log_likelihood(root, Y)).reshape(-1)
@@ -392,6 +446,8 @@ def replay(rep):
             print('evidence', r['rows'][i], 'completion', Y[i].tolist(), 'll', got, 'best', best)
             ok = ok and got >= best - 1e-4
         return ok
+    if r.get('dtype') == 'float64':
+        return replay_float64(r, mpe)
     root, order = build_from_table(r['table'])
     if r.get('history'):
         root, _ = build_from_table(r['history']['table0'])
